@@ -110,21 +110,14 @@ def bboxSpec (shape : List Nat) (data : List Int) : Option (List Int) :=
       [ps.foldl (fun m p => min m (p.getD j 0)) (p0.getD j 0),
        ps.foldl (fun m p => max m (p.getD j 0 + 1)) (p0.getD j 0 + 1)])
 
-/-- `bbox_labeled` + the absent-label zeroing of `py_bbox_labeled`, for labels `0..n` -/
+/-- `bbox_labeled` + the absent-label zeroing of `py_bbox_labeled`, for labels `0..n`: the block
+    `extrema + label*2*nd` of every label starts as `[dim_0, 0, dim_1, 0, …]`, every pixel updates the block
+    of its label, and a block whose `extrema[1]` is still 0 is zeroed. -/
 def bboxLabeled (shape : List Nat) (labels : List Int) (n : Nat) : List Int :=
-  let nd := shape.length
-  let w := 2 * nd
-  let init : Array Int := ((List.range ((n + 1) * w)).map fun t =>
-      if t % 2 == 0 then ((shape.getD ((t / 2) % nd) 0 : Nat) : Int) else 0).toArray
-  let filled := (List.range labels.length).foldl (fun (ext : Array Int) i =>
-      let base := (labels.getD i 0).toNat * w
-      let pos := unravelI shape i
-      (List.range nd).foldl (fun (ext : Array Int) j =>
-        (ext.modify (base + 2 * j) (fun v => min v (pos.getD j 0))).modify (base + 2 * j + 1)
-          (fun v => max v (pos.getD j 0 + 1))) ext) init
-  ((List.range (n + 1)).flatMap fun l =>
-    let blk := (List.range w).map fun t => filled.getD (l * w + t) 0
-    if blk.getD 1 0 == 0 then blk.map (fun _ => 0) else blk)
+  let rows := (List.range labels.length).foldl (fun (rows : Array (List Int)) i =>
+      rows.modify (labels.getD i 0).toNat (fun r => bboxUpdate r (unravelI shape i)))
+    (Array.replicate (n + 1) (bboxInit shape))
+  (List.range (n + 1)).flatMap fun l => bboxFinish (rows.getD l [])
 
 def bboxLabeledSpec (shape : List Nat) (labels : List Int) (n : Nat) : List Int :=
   (List.range (n + 1)).flatMap fun (l : Nat) =>
@@ -134,21 +127,43 @@ def bboxLabeledSpec (shape : List Nat) (labels : List Int) (n : Nat) : List Int 
 
 /-! ### centre of mass -/
 
+/-- the arithmetic the kernel uses, as data: the model is run at `Float` and proved over any field -/
+structure NumOps (α : Type) where
+  zero : α
+  add : α → α → α
+  mul : α → α → α
+  div : α → α → α
+  ofNat : Nat → α
+
+def floatOps : NumOps Float :=
+  { zero := 0.0, add := (· + ·), mul := (· * ·), div := (· / ·), ofNat := Float.ofNat }
+
+/-- `centers_label[j] += val * pos.index_rev(j)` for `j = 0..nd-1` (`index_rev(j)` = coordinate `nd-1-j`) -/
+def rowAdd {α : Type} (ops : NumOps α) (nd : Nat) (val : α) (pos : List Nat) (row : List α) : List α :=
+  (List.range nd).map fun j =>
+    ops.add (row.getD j ops.zero) (ops.mul val (ops.ofNat (pos.getD (nd - 1 - j) 0)))
+
+/-- one pixel of `center_of_mass<T>`: `totals[label] += val` and the row of the label is advanced -/
+def comStep {α : Type} (ops : NumOps α) (shape : List Nat) (vals : List α) (labels : List Int)
+    (st : Array α × Array (List α)) (i : Nat) : Array α × Array (List α) :=
+  let l := (labels.getD i 0).toNat
+  (st.1.modify l (fun t => ops.add t (vals.getD i ops.zero)),
+   st.2.modify l (rowAdd ops shape.length (vals.getD i ops.zero) (unravel shape i)))
+
 /-- `center_of_mass<T>` + the division and coordinate reversal of `py_center_of_mass`;
-    `labels = []` stands for `labels == NULL`. Result: `(maxlabel+1) × nd`, row-major. -/
-def comModel (shape : List Nat) (vals : List Float) (labels : List Int) : List Float :=
+    `labels = []` stands for `labels == NULL`. Result: `(maxlabel+1) × nd`, row-major.
+    (`centers + label*nd` is kept as one row per label.) -/
+def comModelG {α : Type} (ops : NumOps α) (shape : List Nat) (vals : List α) (labels : List Int) : List α :=
   let nd := shape.length
   let nl := (maxOf labels).toNat + 1
-  let st := (List.range vals.length).foldl (fun (st : Array Float × Array Float) i =>
-      let val := vals.getD i 0.0
-      let l := (labels.getD i 0).toNat
-      let pos := unravel shape i
-      let tot := st.1.modify l (· + val)
-      let cen := (List.range nd).foldl (fun (c : Array Float) j =>
-          c.modify (l * nd + j) (· + val * Float.ofNat (pos.getD (nd - 1 - j) 0))) st.2
-      (tot, cen)) (Array.replicate nl 0.0, Array.replicate (nl * nd) 0.0)
+  let st := (List.range vals.length).foldl (comStep ops shape vals labels)
+    (Array.replicate nl ops.zero, Array.replicate nl (List.replicate nd ops.zero))
   (List.range nl).flatMap fun l =>
-    ((List.range nd).map fun j => st.2.getD (l * nd + j) 0.0 / st.1.getD l 0.0).reverse
+    ((List.range nd).map fun j =>
+      ops.div ((st.2.getD l []).getD j ops.zero) (st.1.getD l ops.zero)).reverse
+
+def comModel (shape : List Nat) (vals : List Float) (labels : List Int) : List Float :=
+  comModelG floatOps shape vals labels
 
 /-- specification on exact integers: data `k / scale`; numerator `Σ k·coord_j` and denominator `Σ k`
     per label (the quotient is compared only when the denominator is non-zero) -/
